@@ -498,6 +498,7 @@ package core
 
 // U(x) below: the fork id has no part for x's call (matchPart reports an error).
 //@ func core.ForkId.matchPart property C01
+//@   trusted
 //@   pure
 //@   opt deterministic on
 
@@ -574,6 +575,7 @@ package core
 // producing node and the bound output in fileRefs (from which the producer's fileArgs and
 // filePostNodes are built): such outputs are kept alive for this consumer.
 //@ func syntax.ResolvedBinding.FindRefs property C04
+//@   trusted
 //@   pure
 //@   opt deterministic on
 
